@@ -165,7 +165,9 @@ let check inp obs =
       | _ -> fail "C05: bad op %s" op) ops;
   if c.pos <> Array.length c.tok then fail "C05: trailing tokens in observation at %d: %s" c.pos (peek c);
   let slugs = List.sort_uniq compare (List.map fst !bad) in
-  let finding = (match slugs with [s] -> s | _ -> "-") in
+  (* a case may fail inside several guards at once; it is reported under the first of them unless one
+     of its failures lies outside every guard *)
+  let finding = (if List.mem "-" slugs then "-" else match slugs with s :: _ -> s | [] -> "-") in
   let tagl = List.sort compare (Hashtbl.fold (fun k () acc -> k :: acc) tags []) in
   { prop_ok = (!bad = []); model_eq = (!model_bad = []);
     nontrivial = (Hashtbl.length state > 0 && !nq > 0); finding;
